@@ -3,7 +3,7 @@ from __future__ import annotations
 
 import ast
 
-from .. import fx, q
+from .. import fx, pat, q
 from ..core import AnchorError, Ctx, dotted, guard_facts, norm, walk_no_nested
 from ..rewrite import single_bindings
 
@@ -47,35 +47,68 @@ def run(ctx: Ctx):
         raise AnchorError(BIND, "expected one self._do_translate(<tree>, ...) call")
     tree = calls[0].args[0].id
 
-    # loop over the keyword arguments
-    loops = [l for l in q.for_loops(fi.node) if "kwargs" in norm(l.iter)]
-    if len(loops) != 1 or not (isinstance(loops[0].target, ast.Tuple) and len(loops[0].target.elts) == 2):
-        raise AnchorError(BIND, "loop `for k, w in kwargs.items()` not found")
-    loop = loops[0]
-    k, w = (norm(e) for e in loop.target.elts)
-    apps = [c for s_ in loop.body for c in ([s_.value] if isinstance(s_, ast.Expr) and isinstance(s_.value, ast.Call) else []) if isinstance(c.func, ast.Attribute) and c.func.attr == "append"]
-    ok = False
-    why = "no unconditional `new_body.append(ast.Assign(...))` in the keyword loop"
+    # the injected assignment `name = value`: where do name and value come from?
+    asgs = [c for c in q.calls(fi.node) if pat.ctor_name(c) == "Assign" and (dotted(c.func) or "").startswith("ast.")]
     lst = None
-    if len(apps) == 1 and apps[0].args and isinstance(apps[0].args[0], ast.Call) and (dotted(apps[0].args[0].func) or "").endswith("Assign"):
-        lst = norm(apps[0].func.value)
-        asg = apps[0].args[0]
-        tg = q.arg(asg, 0, "targets")
-        val = q.arg(asg, 1, "value")
-        t_ok = isinstance(tg, ast.List) and len(tg.elts) == 1 and isinstance(tg.elts[0], ast.Call) and (dotted(tg.elts[0].func) or "").endswith("Name") and norm(q.arg(tg.elts[0], 0, "id")) == k
-        v_ok = val is not None and w in q.names_in(val) and k not in q.names_in(val)
-        ok = t_ok and v_ok
-        why = f"the injected statement is `{norm(asg)[:80]}`: its target must be the keyword's name `{k}` and its value built from the keyword's value `{w}`"
-    ctx.check(ok, "MP-one-assign", fi, "one assignment per keyword, name -> value", f"{lst}.append(Assign([Name({k})], value({w})))", why, loop)
-    # unknown name check precedes the append inside the loop
-    if apps:
-        facts = [(norm(e), pol) for e, pol in guard_facts(fi, apps[0])]
-        ok = any((not pol) and f == f"{k} not in self.parameters" for f, pol in facts) or any(pol and f == f"{k} in self.parameters" for f, pol in facts)
-        ctx.check(ok, "MP-checks-first", fi, "unknown parameter names are rejected before anything is injected", "", f"the append is not dominated by `{k} not in self.parameters -> raise` (guards: {facts})", apps[0])
-    # count check dominates the loop
-    facts = [(norm(e), pol) for e, pol in guard_facts(fi, loop)]
+    if len(asgs) != 1:
+        ctx.undecided(BIND, f"{len(asgs)} generated assignments (one `name = value` per keyword expected)")
+    else:
+        asg = asgs[0]
+        tg = pat.only_elt(pat.field(asg, "targets"))
+        val = pat.field(asg, "value")
+        kname = pat.field(tg, "id") if pat.ctor_name(tg) == "Name" else None
+        if not isinstance(kname, ast.Name) or val is None:
+            ctx.undecided(BIND, f"generated assignment `{norm(asg)[:80]}`: target is not ast.Name(id=<keyword>)")
+        else:
+            k = kname.id
+            ws = sorted(q.names_in(val) - {k, "to_val", "ast", "self"} - set(fi.nested))
+            # the binding construct of k: a for loop or a comprehension whose target mentions k
+            binder = None
+            cur = asg
+            while cur is not None:
+                cur = fi.pm.get(cur)
+                if isinstance(cur, ast.For) and k in q.names_in(cur.target):
+                    binder = (cur.target, cur.iter, cur)
+                    break
+                if isinstance(cur, (ast.ListComp, ast.GeneratorExp)) and any(k in q.names_in(g.target) for g in cur.generators):
+                    g = [g for g in cur.generators if k in q.names_in(g.target)][0]
+                    binder = (g.target, g.iter, cur)
+                    break
+            if binder is None:
+                ctx.undecided(BIND, f"the keyword name `{k}` of the generated assignment is not bound by an enclosing loop or comprehension")
+            else:
+                target, it, node = binder
+                itxt = pat.t(it)
+                kw = "kwargs"
+                pair_target = isinstance(target, ast.Tuple) and len(target.elts) == 2 and norm(target.elts[0]) == k and all(w_ in q.names_in(target.elts[1]) for w_ in ws) and len(ws) == 1
+                if pair_target and itxt in (f"{kw}.items()", f"list({kw}.items())", f"zip({kw}.keys(),{kw}.values())", f"zip({kw},{kw}.values())"):
+                    ctx.ok("MP-one-assign", fi, "one assignment per keyword, name -> its own value", f"({k}, {ws[0]}) from {itxt}", node)
+                elif isinstance(target, ast.Name) and target.id == k and pat.t(val).count(f"{kw}[{k}]") >= 1 and not ws:
+                    ctx.ok("MP-one-assign", fi, "one assignment per keyword, name -> its own value", f"{k} in {itxt}, value {kw}[{k}]", node)
+                elif pair_target and isinstance(it, ast.Call) and pat.t(it.func) == "zip" and len(it.args) == 2:
+                    binds = pat.bindings(fi.node)
+                    a0, a1 = (pat.look_through(x, binds) for x in it.args)
+                    ctx.fail("MP-one-assign", fi, "one assignment per keyword, name -> its own value", f"names come from `{norm(a0)[:60]}` and values from `{norm(a1)[:60]}`: two sequences in different orders are zipped, so a name is paired with whatever value sits at the same position, not with the value passed for it (bind(hi=3, lo=1) binds lo=3, hi=1)", node)
+                else:
+                    ctx.undecided(BIND, f"(name, value) pairs come from `{norm(it)[:80]}`: outside the tables")
+            # where the generated assignments are collected
+            app = fi.pm.get(asg)
+            if isinstance(app, ast.Call) and isinstance(app.func, ast.Attribute) and app.func.attr == "append":
+                lst = norm(app.func.value)
+            else:
+                holder = q.enclosing_stmt(fi, asg)
+                if isinstance(holder, ast.Assign) and isinstance(holder.targets[0], ast.Name):
+                    lst = holder.targets[0].id
+            # unknown names are rejected before anything is injected
+            unk = [n for n in ast.walk(fi.node) if isinstance(n, ast.If) and pat.t(n.test).endswith("notinself.parameters") and any(isinstance(x, ast.Raise) for x in n.body)]
+            ctx.check(bool(unk), "MP-checks-first", fi, "unknown parameter names are rejected", "", "no `<name> not in self.parameters -> raise`: a keyword that is not a parameter of the function is injected as a new assignment", fi.node)
+    loops = [l for l in q.for_loops(fi.node) if "kwargs" in norm(l.iter)]
+    loop = loops[0] if loops else fi.node
+    # count check dominates the construction
+    anchor = asgs[0] if asgs else fi.node
+    facts = [(norm(e), pol) for e, pol in guard_facts(fi, anchor)]
     ok = any((not pol) and "len(kwargs" in f and "len(self.parameters" in f and "!=" in f for f, pol in facts)
-    ctx.check(ok, "MP-checks-first", fi, "all parameters must be bound at once", "length check raises first", f"the keyword loop is not dominated by the parameter-count check (guards: {facts})", loop)
+    ctx.check(ok, "MP-checks-first", fi, "all parameters must be bound at once", "length check raises first", f"the generated assignments are not dominated by the parameter-count check (guards: {facts})", anchor)
     # to_val: nested values, element-wise and in order
     tv = fi.nested.get("to_val")
     if tv is None:
